@@ -277,7 +277,7 @@ fn run(input: RunInput) -> ScenFuture {
                             }
                             (None, Some(done)) => {
                                 if connected || !lossy {
-                                    w.violate("abandoned-handler-ran-to-completion", "abandon", format!("call {}: abandoned at {} ms but its handler (started {} ms, needs {} ms) ran to completion at {} ms", c.nonce, t_a / q_ns, s.at_ns / q_ns, c.handler_ms, done / q_ns));
+                                    w.violate("abandoned-handler-ran-to-completion", "abandon", format!("call {}: abandoned at {} ms but its handler (started {} ms, needs {} ms) ran to completion at {} ms", c.nonce, t_a / q_ns, s.at_ns / q_ns, c.handler_ms.max(c.busy_ms), done / q_ns));
                                 }
                             }
                             (None, None) => {
